@@ -40,46 +40,43 @@ fn kv<'a>(a: &'a [&'a str], key: &str) -> Option<&'a str> {
 }
 
 fn build_svg(a: &[&str]) -> SvgBuilder {
+    // order=<setter names, comma separated>: the order in which the setters are called (layer calls `shape`/`shape_color`
+    // consume the items of layers= one by one); without it the canonical order below
+    let canonical = "margin,background_color,module_color,layers,image,image_background_color,image_background_shape,image_size,image_gap,image_position";
+    let order = kv(a, "order").unwrap_or(canonical);
     let mut b = SvgBuilder::default();
-    if let Some(m) = kv(a, "margin") {
-        b.margin(m.parse().unwrap());
-    }
-    if let Some(c) = kv(a, "bg") {
-        b.background_color(rgba(c));
-    }
-    if let Some(c) = kv(a, "fg") {
-        b.module_color(rgba(c));
-    }
-    if let Some(l) = kv(a, "layers") {
-        for item in l.split(',') {
-            let mut it = item.split(':');
-            let sh = SHAPES[it.next().unwrap().parse::<usize>().unwrap()];
-            match it.next() {
-                Some(c) => b.shape_color(sh, rgba(c)),
-                None => b.shape(sh),
-            };
+    let layer_items: Vec<&str> = kv(a, "layers").map(|l| l.split(',').collect()).unwrap_or_default();
+    let mut next_layer = 0usize;
+    let mut add_layer = |b: &mut SvgBuilder, item: &str| {
+        let mut it = item.split(':');
+        let sh = SHAPES[it.next().unwrap().parse::<usize>().unwrap()];
+        match it.next() {
+            Some(c) => b.shape_color(sh, rgba(c)),
+            None => b.shape(sh),
+        };
+    };
+    for step in order.split(',') {
+        match step {
+            "margin" => { if let Some(m) = kv(a, "margin") { b.margin(m.parse().unwrap()); } }
+            "background_color" => { if let Some(c) = kv(a, "bg") { b.background_color(rgba(c)); } }
+            "module_color" => { if let Some(c) = kv(a, "fg") { b.module_color(rgba(c)); } }
+            "layers" => { while next_layer < layer_items.len() { add_layer(&mut b, layer_items[next_layer]); next_layer += 1; } }
+            "shape" | "shape_color" => { if next_layer < layer_items.len() { add_layer(&mut b, layer_items[next_layer]); next_layer += 1; } }
+            "image" => { if let Some(i) = kv(a, "image") { b.image(String::from_utf8(unhex(i)).unwrap()); } }
+            "image_background_color" => { if let Some(c) = kv(a, "ibg") { b.image_background_color(rgba(c)); } }
+            "image_background_shape" => { if let Some(s) = kv(a, "ishape") { b.image_background_shape(ISHAPES[s.parse::<usize>().unwrap()]); } }
+            "image_size" => { if let Some(s) = kv(a, "isize") { b.image_size(s.parse().unwrap()); } }
+            "image_gap" => { if let Some(s) = kv(a, "igap") { b.image_gap(s.parse().unwrap()); } }
+            "image_position" => {
+                if let Some(s) = kv(a, "ipos") {
+                    let mut it = s.split(',');
+                    let x: f64 = it.next().unwrap().parse().unwrap();
+                    let y: f64 = it.next().unwrap().parse().unwrap();
+                    b.image_position(x, y);
+                }
+            }
+            _ => {}
         }
-    }
-    if let Some(i) = kv(a, "image") {
-        b.image(String::from_utf8(unhex(i)).unwrap());
-    }
-    if let Some(c) = kv(a, "ibg") {
-        b.image_background_color(rgba(c));
-    }
-    if let Some(s) = kv(a, "ishape") {
-        b.image_background_shape(ISHAPES[s.parse::<usize>().unwrap()]);
-    }
-    if let Some(s) = kv(a, "isize") {
-        b.image_size(s.parse().unwrap());
-    }
-    if let Some(s) = kv(a, "igap") {
-        b.image_gap(s.parse().unwrap());
-    }
-    if let Some(s) = kv(a, "ipos") {
-        let mut it = s.split(',');
-        let x: f64 = it.next().unwrap().parse().unwrap();
-        let y: f64 = it.next().unwrap().parse().unwrap();
-        b.image_position(x, y);
     }
     b
 }
